@@ -43,6 +43,10 @@ def family(rp):
     f.add("other-member-to-union", "def x: {Int, Str} := \"s\"", "accept")
     f.add("non-member-to-union", "def x: {Int, Str} := 1.5", "reject")
     f.add("union-to-member", "def y: {Int, Str} := 1\ndef x: Int := y", "reject")
+    f.add("tuple-first-generic-mismatch", "def f() -> (Str, Int) => (\"a\", 1)\ndef x: (Int, Int) := f()", "reject")
+    f.add("tuple-last-generic-mismatch", "def f() -> (Int, Str) => (1, \"a\")\ndef x: (Int, Int) := f()", "reject")
+    f.add("tuple-generics-match", "def f() -> (Int, Int) => (1, 2)\ndef x: (Int, Int) := f()", "accept")
+    f.add("tuple-generics-subtype", "def f() -> (Int, Int) => (1, 2)\ndef x: (Float, Int) := f()", "accept")
     f.add("union-to-same-union", "def y: {Int, Str} := 1\ndef x: {Str, Int} := y", "accept")
     return f
 
@@ -107,6 +111,111 @@ def ob_has_parent(run, mir, rp, fam):
     e2.prove(run, ob, ex, [], conj(claims), names,
              fam.as_replay("has-parent:", only=["reflexive", "class-to-any", "primitive-to-any", "child-", "parent-", "unrelated", "int-to", "float-to"]))
     run.samples.append({"obligation": ob.id, "paths": len(ends), "parent_slots": K})
+
+
+def ob_has_parent_name(run, mir, rp, fam, only=None):
+    ob = run.ob("has-parent-of-name", "E2", "Class::has_parent(&Name) (used for `raise [E]` declarations): true at once when "
+                "the name contains the class or is Any; otherwise, for one member of the name from an arbitrary loop state, "
+                "true exactly when SOME declared parent (<= 2) has that member as ancestor, errors propagated; false when "
+                "the members are exhausted", ["Class::has_parent(&Name)", "::{closure#0..2}"])
+    fn = e2.find1(mir, file=CLSS_RS, impl="impl HasParent<&Name> for Class", name="has_parent")
+    K = 2
+    pres = [z3.Bool(f"parent{i}.present") for i in range(K)]
+    parents = [opq(f"parent{i}", "TrueName") for i in range(K)]
+    ex = Exec(mir, max_paths=20000)
+    st = State()
+    cls, cv = e2.sym_struct(CLSS_RS, "Class", "self", {"parents": SymColl([(pres[i], parents[i]) for i in range(K)])})
+    ctx = Ref(ex.new_cell(st, opq("ctx", "Context")))
+    pos = opq("pos", "Position")
+    name = Ref(ex.new_cell(st, opq("name", "Name")))
+    ends = e2.run_kernel(run, ex, fn, [Ref(ex.new_cell(st, cls)), name, ctx, pos], st)
+    claims, n_body = [], 0
+    for p in ends:
+        c = conj(p.cond)
+        s = p.state
+        kind = result_kind(p)
+        nx = calls(p, "Iterator::next")
+        if not nx:
+            # before the loop: the shortcut, or an error while looking the parents up
+            cont = calls(p, "Name::contains")
+            if kind == "Ok":
+                okv = p.ret.fields[0]
+                claims.append(z3.Implies(c, okv if z3.is_bool(okv) else z3.BoolVal(False)))
+            continue
+        item = nx[-1]["ret"]
+        d_opt = ex.discr(s, item, "Option<StringName>")
+        member = ex.project(s, ex.project(s, item, ("v", "Some")), ("f", 0), "StringName")
+        ans_ok, ans = [], []
+        for i in range(K):
+            pn = ex.app("StringName.From::from", [parents[i]], "StringName", s)
+            c_ = ex.app("Context.LookupClass::class", [ctx, pn, pos], "Result<Class, Vec<TypeErr>>", s)
+            cvv = ex.project(s, ex.project(s, c_, ("v", "Ok")), ("f", 0), "Class")
+            hp = ex.app("Class.HasParent::has_parent", [cvv, member, ctx, pos], "Result<bool, Vec<TypeErr>>", s)
+            d_h = ex.discr(s, hp, "Result")
+            hv = ex.project(s, ex.project(s, hp, ("v", "Ok")), ("f", 0), "bool")
+            ans_ok.append(z3.Implies(pres[i], d_h == 0))
+            ans.append(z3.And(pres[i], hv))
+        any_ans = z3.Or(*ans)
+        if p.kind == "loop_back":
+            n_body += 1
+            claims.append(z3.Implies(c, z3.And(d_opt == 1, conj(ans_ok), z3.Not(any_ans))))
+        elif kind == "Ok":
+            okv = p.ret.fields[0]
+            claims.append(z3.Implies(z3.And(c, d_opt == 0), z3.Not(okv)))
+            claims.append(z3.Implies(z3.And(c, d_opt == 1), z3.And(conj(ans_ok), any_ans, okv)))
+        elif kind == "Err":
+            claims.append(z3.Implies(c, z3.And(d_opt == 1, z3.Not(conj(ans_ok)))))
+        else:
+            claims.append(z3.Not(c))
+    if not n_body:
+        raise Unsupported("loop body not reached")
+    names = {f"parent{i}.present": pres[i] for i in range(K)}
+    e2.prove_each(run, ob, ex, [], claims, names, fam.as_replay("has-parent-of-name:", only=only))
+
+
+def ob_generics(run, mir, rp, fam):
+    ob = run.ob("has-parent-generics-conjunction", "E2", "Class::has_parent(&StringName), generic instantiations of the same "
+                "class: one (self generic member, other generic) pair from an arbitrary loop state turns the accumulator "
+                "into accumulator AND `that member has the other generic as parent` — every generic argument counts",
+                ["Class::has_parent(&StringName) (generics loops)"])
+    cands = [f for f in mir.find(file=CLSS_RS, impl="impl HasParent<&StringName> for Class", name="has_parent")]
+    if len(cands) != 1:
+        raise Unsupported(f"has_parent lookup matched {len(cands)}")
+    fn = cands[0]
+    ex = Exec(mir, max_paths=20000, models=[(r"^<StringName as PartialEq>::(eq|ne)$", m_str_eq)])
+    st = State()
+    sn = mk_struct(STRING_NAME_RS, "StringName", {"name": opq("self.name.name", "String"), "generics": opq("self.generics", "Vec<Name>")})
+    on = mk_struct(STRING_NAME_RS, "StringName", {"name": opq("other.name", "String"), "generics": opq("other.generics", "Vec<Name>")})
+    cls, _cv = e2.sym_struct(CLSS_RS, "Class", "self", {"name": sn})
+    ctx = Ref(ex.new_cell(st, opq("ctx", "Context")))
+    pos = opq("pos", "Position")
+    ends = e2.run_kernel(run, ex, fn, [Ref(ex.new_cell(st, cls)), Ref(ex.new_cell(st, on)), ctx, pos], st)
+    dbg = fn.debug.get("all_generic_super")
+    if not dbg or not re.fullmatch(r"_\d+", dbg):
+        raise Unsupported("accumulator local all_generic_super not found")
+    n_acc = int(dbg[1:])
+    claims, n_body = [], 0
+    for p in ends:
+        if p.kind != "loop_back":
+            continue
+        s = p.state
+        hps = calls(p, "Class.HasParent::has_parent")
+        if not hps:
+            continue                      # the outer loop's back edge: no member processed on this path
+        n_body += 1
+        fr0 = s.frames[0]
+        cell = fr0.locals.get(n_acc)
+        acc1 = s.cells[cell]
+        m_ = re.search(r"h\d+_%d_\d+" % n_acc, str(acc1) + " ".join(str(x) for x in p.cond))
+        acc0 = z3.Bool(m_.group(0)) if m_ else None
+        hv = ex.project(s, ex.project(s, hps[-1]["ret"], ("v", "Ok")), ("f", 0), "bool")
+        if acc0 is None or not z3.is_bool(acc1):
+            claims.append(z3.Not(conj(p.cond)))
+        else:
+            claims.append(z3.Implies(conj(p.cond), acc1 == z3.And(acc0, hv)))
+    if not n_body:
+        raise Unsupported("generics loop body not reached")
+    e2.prove_each(run, ob, ex, [], claims, {}, fam.as_replay("generics:", only=["tuple-", "generic-"]))
 
 
 def ob_name_superset(run, mir, rp, fam):
@@ -232,7 +341,7 @@ def run(run):
                "commutativity/associativity/idempotence of union (HashSet operations)")
     run.trusted += ["rustc nightly MIR dump", "mirsym MIR semantics", "z3"]
     run.bounds = {"parents": 2, "union_members": 3}
-    for f in (ob_has_parent, ob_name_superset, ob_ord):
+    for f in (ob_has_parent, ob_generics, ob_has_parent_name, ob_name_superset, ob_ord):
         try:
             f(run, mir, rp, fam)
         except Unsupported as e:
@@ -241,6 +350,10 @@ def run(run):
         C06.ob_true_name_rule(run, mir, rp, fam if False else C06.family(rp))
     except Unsupported as e:
         run.ob("true-name-rule-encoding", "E2", "kernel is encodable").inconclusive(f"unsupported construct: {e}")
+    try:
+        C06.ob_union(run, mir, rp, C06.family(rp))
+    except Unsupported as e:
+        run.ob("union-encoding", "E2", "kernel is encodable").inconclusive(f"unsupported construct: {e}")
     if run.clean():
         e2.validate_family(run, fam, "assignability")
     rp.close()
